@@ -31,7 +31,8 @@ def case(g, tier, ci):
                             seq_sr_factor=factor)
     chans = info["chans"]
     # delays: samples 0 or >= 2, pairwise differences 0 or >= 2
-    pool = [0, 2, 3, 5, 7, 29] if r.random() < 0.7 else [0, 2, 4, 9]
+    # 27/29 and 7/9: two samples apart, but the float difference of the two delays is just below 2/SR
+    pool = [0, 2, 3, 5, 7, 29, 27] if r.random() < 0.7 else [0, 2, 4, 9, 7]
     chosen = {}
     for ch in chans:
         if r.random() < 0.7:
